@@ -711,9 +711,22 @@ impl rustc_driver::Callbacks for Cb {
                 _ => {}
             }
         }
+        // source files of this crate as compiled (for the extractor's own freshness check)
+        let mut srcs = vec![];
+        for sf in tcx.sess.source_map().files().iter() {
+            if let rustc_span::FileName::Real(r) = &sf.name {
+                if let Some(p) = r.local_path() {
+                    let ps = p.to_string_lossy().to_string();
+                    if !ps.contains("/.cargo/") && !ps.contains("/rustlib/") && !ps.contains("/.rustup/") && sf.cnum == LOCAL_CRATE {
+                        srcs.push(s(ps));
+                    }
+                }
+            }
+        }
         let root = J::O(vec![
             ("crate", s(krate.clone())),
             ("nonce", s(nonce)),
+            ("srcs", J::A(srcs)),
             ("fns", J::A(fns)),
             ("consts", J::A(consts)),
             ("adts", J::A(adts)),
